@@ -579,6 +579,22 @@ class Executor:
             return ('agg', 'tuple', '', '', (), ())
         return None
 
+    def _ctor_call(self, name, args):
+        """`Enum::Variant` / tuple-struct constructors used as functions build the aggregate."""
+        if '::' not in name:
+            return None
+        adt, var = name.rsplit('::', 1)
+        a = self.facts.adts.get(adt)
+        if a is not None and a['kind'] == 'Enum':
+            for v in a['variants']:
+                if v['name'] == var and len(v['fields']) == len(args):
+                    return ('agg', 'adt', adt, var, tuple(x['name'] for x in v['fields']), tuple(args))
+        a = self.facts.adts.get(name)
+        if a is not None and a['kind'] == 'Struct' and len(a['variants']) == 1 and len(a['variants'][0]['fields']) == len(args):
+            v = a['variants'][0]
+            return ('agg', 'adt', name, v['name'], tuple(x['name'] for x in v['fields']), tuple(args))
+        return None
+
     def resolve_refs(self, body, fid, st, v, depth=0):
         """The value with references replaced by what they point to at this moment (for reading aggregates that
         carry references, e.g. Notification::Rename(&old, &new))."""
@@ -715,7 +731,17 @@ class Executor:
                 t = dict(t)
                 t['_block'] = block
                 t['_depth'] = depth
-                modeled = self.model_call(body, fid, st, t, args, decl, res)
+                modeled = None
+                if not decl and not res and t.get('func', {}).get('k') in ('copy', 'move'):
+                    # call through a function pointer whose value is known on this path (`make_timer(token)` with
+                    # make_timer = Timer::PeriodicGossip handed down by the caller)
+                    fv = self.operand(body, fid, st, t['func'])
+                    if fv[0] == 'fn':
+                        decl, res = fv[1], fv[2] or fv[1]
+                        t['decl'], t['res'] = decl, res
+                        modeled = self._ctor_call(res, args)
+                if modeled is None:
+                    modeled = self.model_call(body, fid, st, t, args, decl, res)
                 dest = self.canon(body, fid, st, t['dest'])
                 if modeled is not None:
                     self.write(st, dest, modeled)
